@@ -34,7 +34,11 @@ func verifSymStyle(tag string, colours bool) vaxis.Style {
 	var st vaxis.Style
 	if !colours {
 		st.Attribute = vaxis.AttributeMask(zzverif.Uint8(tag+".attr")) & 0xFE
-		st.UnderlineStyle = vaxis.UnderlineStyle(zzverif.Choose(tag+".ul", 6))
+		if zzverif.Param("first") == 2 {
+			st.Attribute &= vaxis.AttrBold | vaxis.AttrDim | vaxis.AttrItalic | vaxis.AttrBlink
+		} else {
+			st.UnderlineStyle = vaxis.UnderlineStyle(zzverif.Choose(tag+".ul", 6))
+		}
 		return st
 	}
 	c := verifColours[zzverif.Choose(tag+".colour", len(verifColours))]
@@ -90,5 +94,27 @@ func VerifC18Agreement() {
 		zzverif.Assert(verifSame(e1, c1.Style) && verifSame(e2, c2.Style), "embedded-terminal-understands-encoder")
 		zzverif.Assert(vt.activeScreen[0][0].Grapheme == "a" && vt.activeScreen[0][1].Grapheme == "b", "embedded-terminal-text")
 	}
+	zzverif.Reach("end")
+}
+
+// VerifC18TermLegacyTruncated: the legacy semicolon forms of the extended colours (38/48/58
+// followed by 2;r;g;b or 5;n as separate parameters), complete and truncated at every point,
+// after 0-3 ordinary parameters: (*Model).sgr never panics.
+func VerifC18TermLegacyTruncated() {
+	vt := verifModel(2, 2)
+	var params [][]int
+	for i := zzverif.Choose("prefix", 4); i > 0; i-- {
+		params = append(params, []int{1})
+	}
+	params = append(params, []int{[]int{38, 48, 58}[zzverif.Choose("head", 3)]})
+	m := zzverif.Choose("following", 6)
+	for i := 0; i < m; i++ {
+		v := []int{0, 300}[zzverif.Choose("v", 2)]
+		if i == 0 {
+			v = []int{2, 5, 7}[zzverif.Choose("kind", 3)]
+		}
+		params = append(params, []int{v})
+	}
+	vt.sgr(params)
 	zzverif.Reach("end")
 }
